@@ -213,5 +213,5 @@ func TestVerif_C01adv(t *testing.T) {
 		}
 		return verifkit.Decode(raw, prop)
 	})
-	verifkit.Rapid(k, t, "advertiser-transmissions", k.N(1200, 60000), c17Gen, prop)
+	verifkit.Rapid(k, t, "advertiser-transmissions", k.N(1200, 150000), c17Gen, prop)
 }
